@@ -2,36 +2,8 @@
    depends on ratios of distances.  (What an f32 / f64 instance adds to this is overflow and underflow of the
    intermediate products at extreme amplitudes; the theorem says that nothing else can depend on the amplitude.) *)
 From Coq Require Import List Arith Lia QArith Qcanon Qcabs.
-From Signalo Require Import Model.Hampel Spec.C02 Base.ListX Base.Machine Proofs.Hampel.
+From Signalo Require Import Model.Hampel Spec.C02 Base.ListX Base.Machine Proofs.Hampel Proofs.OrderEmbed.
 Import ListNotations.
-
-(* ---------- order statistics commute with order embeddings ---------- *)
-Section Embed.
-Context {T : Type} (leb : T -> T -> bool) (f : T -> T).
-Hypothesis Hf : forall a b, leb (f a) (f b) = leb a b.
-
-Lemma sinsert_map x l : sinsert T leb (f x) (map f l) = map f (sinsert T leb x l).
-Proof.
-  induction l as [|y r IH]; [reflexivity|].
-  cbn [map sinsert]. rewrite Hf. destruct (leb x y); [reflexivity|].
-  cbn [map]. rewrite IH. reflexivity.
-Qed.
-
-Lemma isort_map l : isort leb (map f l) = map f (isort leb l).
-Proof.
-  induction l as [|x r IH]; [reflexivity|].
-  cbn [map isort]. rewrite IH. apply sinsert_map.
-Qed.
-
-Lemma lower_median_map w d : lower_median leb (map f w) (f d) = f (lower_median leb w d).
-Proof. unfold lower_median. rewrite isort_map, map_length. apply map_nth. Qed.
-
-Lemma window_min_map w d : window_min leb (map f w) (f d) = f (window_min leb w d).
-Proof. unfold window_min. rewrite isort_map. destruct (isort leb w); reflexivity. Qed.
-End Embed.
-
-Lemma lastn_map {A} (f : A -> A) n l : lastn n (map f l) = map f (lastn n l).
-Proof. unfold lastn. rewrite map_length. apply skipn_map. Qed.
 
 (* ---------- the affine maps x |-> c * x + d with c > 0 ---------- *)
 Local Open Scope Qc_scope.
